@@ -882,7 +882,9 @@ class TunnelCommunity(Community):
 
             self.logger.info("Got CREATED message forward as EXTENDED to origin.")
 
-            if request.from_circuit_id not in self.exit_sockets:
+            exit_socket = self.exit_sockets.get(request.from_circuit_id)
+            # The circuit id may have been handed to another peer since the extend was requested.
+            if exit_socket is None or exit_socket.hop.peer != request.peer:
                 self.logger.info("Created for unknown exit socket %s", request.from_circuit_id)
                 return
             if (request.to_circuit_id in self.circuits or request.to_circuit_id in self.relay_from_to
